@@ -86,7 +86,15 @@ func (r fbRec) ErrConcurrencyLimitReject(_ context.Context, t time.Time)   { r.e
 type scriptedOpener struct {
 	runRec
 	shouldOpen, prevent bool
+	told               int
+	toldTo             time.Duration
 }
+
+// the scripted logic implements circuit.Configurable — the documented two-method interface — and remembers what it was told
+func (s *scriptedOpener) SetConfigThreadSafe(c circuit.Config)    { s.told, s.toldTo = s.told+1, c.Execution.Timeout }
+func (s *scriptedOpener) SetConfigNotThreadSafe(c circuit.Config) { s.told, s.toldTo = s.told+1, c.Execution.Timeout }
+func (s *scriptedCloser) SetConfigThreadSafe(c circuit.Config)    { s.told, s.toldTo = s.told+1, c.Execution.Timeout }
+func (s *scriptedCloser) SetConfigNotThreadSafe(c circuit.Config) { s.told, s.toldTo = s.told+1, c.Execution.Timeout }
 
 func (s *scriptedOpener) ShouldOpen(_ context.Context, _ time.Time) bool { return s.shouldOpen }
 func (s *scriptedOpener) Prevent(_ context.Context, _ time.Time) bool    { return s.prevent }
@@ -94,6 +102,8 @@ func (s *scriptedOpener) Prevent(_ context.Context, _ time.Time) bool    { retur
 type scriptedCloser struct {
 	runRec
 	allow, shouldClose bool
+	told               int
+	toldTo             time.Duration
 }
 
 func (s *scriptedCloser) ShouldClose(_ context.Context, _ time.Time) bool { return s.shouldClose }
@@ -739,6 +749,15 @@ func (circuitSuite) Run(h map[string]string, ops []string) []string {
 				} else {
 					e.c.SetConfigThreadSafe(e.base)
 				}
+				// logic that implements circuit.Configurable must have been told THIS configuration by now
+				told := "1"
+				if e.so != nil && e.so.toldTo != e.c.Config().Execution.Timeout {
+					told = "0"
+				}
+				if e.sc != nil && e.sc.toldTo != e.c.Config().Execution.Timeout {
+					told = "0"
+				}
+				return "open=" + b01(e.c.IsOpen()) + " told=" + told
 			case "rebuild":
 				// reconfigure through SetConfigNotThreadSafe with another TimeKeeper: from now on every timestamp must
 				// be a reading of THAT one
